@@ -49,6 +49,9 @@ type lockEv struct {
 
 var c05Datasets = []string{"a", "b", "c"}
 
+// c05Shared: a dataset any client may create (again) at any time; never deleted
+const c05Shared = "shared"
+
 func stampOf(e *kit.Ent) string {
 	for k, v := range e.Props {
 		if strings.HasSuffix(k, ":p0") {
@@ -90,7 +93,12 @@ func genPlan(t *rapid.T, pool *kit.Pool) cplan {
 				}
 				return e
 			}
-			switch rapid.IntRange(0, 11).Draw(t, "kind") {
+			switch rapid.IntRange(0, 12).Draw(t, "kind") {
+			case 12:
+				// several clients create the SAME new dataset (CreateDataset of an existing name returns that
+				// dataset) and write to it as soon as their own call has returned
+				ops = append(ops, cop{K: "mkshared", DS: c05Shared})
+				ops = append(ops, cop{K: "batch", DS: c05Shared, Ents: []*kit.Ent{mk(0), mk(1)}})
 			case 0, 1, 2:
 				n := rapid.IntRange(1, 3).Draw(t, "n")
 				var es []*kit.Ent
@@ -125,7 +133,8 @@ func genPlan(t *rapid.T, pool *kit.Pool) cplan {
 				}
 				ops = append(ops, cop{K: "txn", Parts: parts, Ctx: rapid.Bool().Draw(t, "ctx")})
 			case 7:
-				ops = append(ops, cop{K: "readFeed", DS: rapid.SampledFrom(c05Datasets).Draw(t, "ds")})
+				k := rapid.SampledFrom([]string{"readFeed", "readFeedLatest"}).Draw(t, "feedKind")
+				ops = append(ops, cop{K: k, DS: rapid.SampledFrom(c05Datasets).Draw(t, "ds")})
 			case 8:
 				ops = append(ops, cop{K: "readList", DS: rapid.SampledFrom(c05Datasets).Draw(t, "ds")})
 			case 9:
@@ -234,6 +243,10 @@ func runPlan(t *rapid.T, plan cplan, pool *kit.Pool, post func(h *WHub, failf fu
 					if err != nil {
 						errs <- fmt.Sprintf("client %d op %d: CreateDataset: %v", ci, oi, err)
 					}
+				case "mkshared":
+					if _, err := h.Dsm.CreateDataset(op.DS, nil); err != nil {
+						errs <- fmt.Sprintf("client %d op %d: CreateDataset(%s): %v", ci, oi, op.DS, err)
+					}
 				case "rmds":
 					if err := h.Dsm.DeleteDataset(op.DS); err != nil {
 						errs <- fmt.Sprintf("client %d op %d: DeleteDataset: %v", ci, oi, err)
@@ -245,6 +258,19 @@ func runPlan(t *rapid.T, plan cplan, pool *kit.Pool, post func(h *WHub, failf fu
 						continue
 					}
 					r := cread{client: ci, op: oi, kind: "feed", ds: op.DS}
+					for _, e := range es {
+						r.stamps = append(r.stamps, stampOf(e))
+					}
+					rmu.Lock()
+					reads = append(reads, r)
+					rmu.Unlock()
+				case "readFeedLatest":
+					es, _, err := h.Feed(op.DS, 0, nil, true)
+					if err != nil {
+						errs <- fmt.Sprintf("client %d op %d: GetChanges(latestOnly): %v", ci, oi, err)
+						continue
+					}
+					r := cread{client: ci, op: oi, kind: "feedLatest", ds: op.DS}
 					for _, e := range es {
 						r.stamps = append(r.stamps, stampOf(e))
 					}
@@ -330,7 +356,16 @@ func runPlan(t *rapid.T, plan cplan, pool *kit.Pool, post func(h *WHub, failf fu
 	overlapTxn := 0
 	pos := map[string]map[string]int{} // ds -> stamp -> position in final feed
 	feeds := map[string][]*kit.Ent{}
-	for _, ds := range c05Datasets {
+	finalDS := append([]string{}, c05Datasets...)
+	for _, ops := range plan.Clients {
+		for _, op := range ops {
+			if op.K == "mkshared" && len(finalDS) == len(c05Datasets) {
+				finalDS = append(finalDS, c05Shared)
+				kit.S().Class("shared-dataset-created-by-several-clients", 1)
+			}
+		}
+	}
+	for _, ds := range finalDS {
 		feed, _, err := h.Feed(ds, 0, nil, false)
 		if err != nil {
 			failf("final feed: %v", err)
@@ -345,7 +380,7 @@ func runPlan(t *rapid.T, plan cplan, pool *kit.Pool, post func(h *WHub, failf fu
 			pos[ds][st] = i
 		}
 	}
-	for _, ds := range c05Datasets {
+	for _, ds := range finalDS {
 		feed := feeds[ds]
 		// every acknowledged write is present, batches contiguous and in order, client order preserved
 		for ci, ops := range plan.Clients {
@@ -489,6 +524,44 @@ func runPlan(t *rapid.T, plan cplan, pool *kit.Pool, post func(h *WHub, failf fu
 			}
 			if len(r.stamps) > 0 && len(r.stamps) < len(pos[r.ds]) {
 				readsBetween++
+			}
+		case "feedLatest":
+			// one latest-only page: the newest version of each entity as the dataset stood between two
+			// commits - the latest-only fold of some prefix of the final feed that ends where a batch ends
+			feed := feeds[r.ds]
+			starts := map[int]bool{0: true, len(feed): true}
+			for _, g := range groups {
+				if g.ds == r.ds {
+					starts[pos[r.ds][g.stamps[0]]] = true
+				}
+			}
+			got := strings.Join(r.stamps, " ")
+			ok := false
+			for k := 0; k <= len(feed) && !ok; k++ {
+				if !starts[k] {
+					continue
+				}
+				lastOf := map[string]int{}
+				for i := 0; i < k; i++ {
+					lastOf[feed[i].ID] = i
+				}
+				var fold []string
+				for i := 0; i < k; i++ {
+					if lastOf[feed[i].ID] == i {
+						fold = append(fold, stampOf(feed[i]))
+					}
+				}
+				ok = strings.Join(fold, " ") == got
+			}
+			if !ok {
+				var all []string
+				for _, e := range feed {
+					all = append(all, stampOf(e))
+				}
+				failf("READ-LATESTONLY-TORN ds=%s: a single latest-only feed read returned %v, which is not the newest-version-per-entity view of the dataset between any two commits (final feed %v)", r.ds, r.stamps, all)
+			}
+			if len(r.stamps) > 0 {
+				kit.S().Class("latest-only-page-read-concurrently", 1)
 			}
 		case "list":
 			// if the listing shows member x of a batch as latest, every other member y of that batch is
